@@ -1070,8 +1070,9 @@ impl Walrus {
                     initial_trim = 0; // Only for first entry
                 }
 
-                // Add to results
-                if !final_data.is_empty() {
+                // Add to results (an entry whose payload is empty is still an entry; only a
+                // first entry trimmed away entirely by a start offset is omitted)
+                if !final_data.is_empty() || data_slice.is_empty() {
                     // Extract topic_id and chunk_idx from the payload prefix for logging
                     if final_data.len() >= 9 {
                         let t_idx = final_data[0];
